@@ -166,6 +166,7 @@ func vfRunBar(c *vfCtx, bc vfBarCase, r *vfRand) (renders int64) {
 		}
 		vfClockNanos.Add(d)
 	}
+	paused, pauseLeft := false, 0
 	nfiles := 1
 	if bc.Count > 1 {
 		nfiles = 2
@@ -252,8 +253,31 @@ func vfRunBar(c *vfCtx, bc vfBarCase, r *vfRand) (renders int64) {
 				}
 				eff = w
 			}
+			// the stop prompt opens now and then: steps keep arriving while it is open (nothing is drawn), then it closes
+			if r.Intn(9) == 0 && !paused {
+				paused = true
+				pauseLeft = 1 + r.Intn(3)
+				if !call("setPause(true)", func() { bar.setPause(true) }) {
+					return
+				}
+			}
 			tick()
 			if !call(fmt.Sprintf("onStep(%d)", s), func() { bar.onStep(s) }) || !check() {
+				return
+			}
+			if paused {
+				pauseLeft--
+				if pauseLeft <= 0 {
+					paused = false
+					if !call("setPause(false)", func() { bar.setPause(false) }) || !check() {
+						return
+					}
+				}
+			}
+		}
+		if paused {
+			paused = false
+			if !call("setPause(false)", func() { bar.setPause(false) }) || !check() {
 				return
 			}
 		}
